@@ -152,6 +152,14 @@ func (f *c14Recv) OnReceive(ctx context.Context, headers api.HeaderMap, buf buff
 		if f.calls == 1 {
 			return api.StreamFilterReMatchRoute
 		}
+	case "x":
+		// re-match after changing the request so that NO route matches any more: the redo itself ends the stream (no-route
+		// reply) before the resumed pass of this phase can run
+		if f.calls == 1 {
+			_ = variable.SetString(ctx, types.VarPath, "/c14-no-such-route")
+			headers.Set("service", "c14-no-such-route")
+			return api.StreamFilterReMatchRoute
+		}
 	case "M": // asks twice in a row
 		if f.calls <= 2 {
 			return api.StreamFilterReMatchRoute
@@ -160,12 +168,41 @@ func (f *c14Recv) OnReceive(ctx context.Context, headers api.HeaderMap, buf buff
 		if f.calls == 1 {
 			return api.StreamFilterReChooseHost
 		}
+	case "y":
+		// re-choose after the chosen host (the only one of its cluster) became unhealthy: the redo itself ends the stream ("no
+		// healthy upstream") before the resumed pass of this phase can run. The harness restores the host after the reply.
+		if f.calls == 1 {
+			if hi := f.handler.RequestInfo().UpstreamHost(); hi != nil {
+				if h, ok := hi.(types.Host); ok {
+					h.SetHealthFlag(api.FAILED_OUTLIER_CHECK)
+					c14Sick.Lock()
+					c14SickHosts = append(c14SickHosts, h)
+					c14Sick.Unlock()
+				}
+			}
+			return api.StreamFilterReChooseHost
+		}
 	case "O":
 		if f.calls <= 2 {
 			return api.StreamFilterReChooseHost
 		}
 	}
 	return api.StreamFilterContinue
+}
+
+var (
+	c14Sick      sync.Mutex
+	c14SickHosts []types.Host
+)
+
+// c14Heal clears the condition the 'y' verdict set on hosts.
+func c14Heal() {
+	c14Sick.Lock()
+	for _, h := range c14SickHosts {
+		h.ClearHealthFlag(api.FAILED_OUTLIER_CHECK)
+	}
+	c14SickHosts = nil
+	c14Sick.Unlock()
 }
 
 type c14Send struct {
@@ -229,7 +266,10 @@ func c14Engine(c *lab.Ctx) {
 			codes = append(codes, s, s+110) // every status a scripted filter answers with: 460..489 and 570..579 (+)
 		}
 		// "qr": the same (the key must not extend "f": HTTP routes match by path prefix), with a retry policy that would retry every status a filter answers with
-		return []routeSpec{{Key: "f", Cluster: "cl-$P", Extra: jmap{"timeout": "1s"}},
+		return []routeSpec{
+			{Key: "f", Cluster: "cl-$P", Extra: jmap{"timeout": "1s"}},
+			// "y": a single-host cluster used only by the vectors with a failing re-choose, one at a time
+			{Key: "y", Cluster: "cl-$P-lim", Extra: jmap{"timeout": "1s"}},
 			{Key: "qr", Cluster: "cl-$P", Extra: jmap{"timeout": "1s", "retry_policy": jmap{"retry_on": true, "num_retries": 2, "status_codes": codes}}}}
 	}
 	e, err := newEngine(c, engineProtos, routes, nil, func(l *mosnListener) { l.StreamFlt = flt })
@@ -242,9 +282,9 @@ func c14Engine(c *lab.Ctx) {
 		a := []string{"c", "h", "d", "D", "t", "T", "s"}
 		switch ph {
 		case "after_route":
-			a = append(a, "m", "M")
+			a = append(a, "m", "M", "x")
 		case "after_choose_host":
-			a = append(a, "o", "O")
+			a = append(a, "o", "O", "y")
 		}
 		return a
 	}
@@ -279,10 +319,14 @@ func c14Engine(c *lab.Ctx) {
 		c.Exhaustive(false)
 	}
 	if !c.Thorough() && len(vectors) > 700 {
-		// quick tier: a deterministic third of the vectors, rotating with the seed
+		// quick tier: a deterministic fraction of the vectors (at most ~1500), rotating with the seed
+		mod := 3
+		if len(vectors) > 4500 {
+			mod = (len(vectors) + 1499) / 1500
+		}
 		var sel [][]string
 		for i, v := range vectors {
-			if (i+int(c.Seed))%3 == 0 {
+			if (i+int(c.Seed))%mod == 0 {
 				sel = append(sel, v)
 			}
 		}
@@ -290,6 +334,10 @@ func c14Engine(c *lab.Ctx) {
 		c.Exhaustive(false)
 	}
 	order := map[string]int{"before_route": 0, "after_route": 1, "after_choose_host": 2}
+	ymu := map[string]*sync.Mutex{}
+	for _, p := range engineProtos {
+		ymu[p] = &sync.Mutex{}
+	}
 	var wg sync.WaitGroup
 	const par = 4
 	for _, proto := range engineProtos {
@@ -315,6 +363,20 @@ func c14Engine(c *lab.Ctx) {
 					if only := os.Getenv("VERIF_C14_ONLY"); only != "" && only != strings.Join(vec, ",") {
 						continue
 					}
+					sickly := false
+					for i, v := range vec {
+						if v == "y" {
+							sickly = true
+							_ = i
+						}
+					}
+					if sickly {
+						if key == "qr" {
+							continue
+						}
+						key = "y"
+						ymu[proto].Lock()
+					}
 					tok := fmt.Sprintf("%s%d-%s-%d", key, c.Batch, proto, vi)
 					req := reqFor(proto, key, tok, "ok")
 					req.Headers = append(req.Headers, [2]string{"x-verif-v", strings.Join(vec, ",")})
@@ -329,6 +391,10 @@ func c14Engine(c *lab.Ctx) {
 					}
 					c.Case("c14 %s shape=%v vec=%v token=%s", proto, shape.phases, vec, tok)
 					ev := cl.do(req)
+					if sickly {
+						c14Heal()
+						ymu[proto].Unlock()
+					}
 					c.Eval(1)
 					if ev.Kind != "response" {
 						cl.close()
@@ -349,10 +415,57 @@ func c14Engine(c *lab.Ctx) {
 							}
 						}
 					}
+					// (0) completeness, from the verdict vector alone: in execution order (phases in order, configured order inside)
+					// every filter up to and including the first one that answers / terminates must have been invoked. A filter that
+					// was never invoked cannot appear in the filter log, so this is the only rule that sees a skipped filter.
+					var execOrder []int
+					for ph := 0; ph < 3; ph++ {
+						for id, name := range shape.phases {
+							if order[name] == ph {
+								execOrder = append(execOrder, id)
+							}
+						}
+					}
+					mDenier, mStop, mDead, mNoRoute := -1, false, false, false
+					var mustRun []int
+					for _, id := range execOrder {
+						if mDead {
+							break
+						}
+						if mNoRoute && order[shape.phases[id]] == 2 {
+							break // no route after the re-match: choosing a host fails, the after-choose-host phase is never reached
+						}
+						mustRun = append(mustRun, id)
+						v := vec[id]
+						if v == "h" || v == "d" || v == "D" || v == "t" || v == "T" {
+							mDenier = id
+							break
+						}
+						if v == "s" {
+							mStop = true // what follows a bare Stop is not fixed by the statement
+							break
+						}
+						if v == "x" {
+							mNoRoute = true
+						}
+						if v == "y" {
+							mDead = true // the redo finds no healthy host: the proxy answers, no further filter is owed
+						}
+					}
+					for _, id := range mustRun {
+						if calls[id] == 0 {
+							c.Violation("filters-run-in-order", "C14/receive-filter-skipped/"+sig,
+								fmt.Sprintf("%s chain %v verdicts %v: receive filter #%d (%s) was never invoked although no earlier filter answered or terminated the request", proto, shape.phases, vec, id, shape.phases[id]), wit)
+						}
+					}
+					if (mDead || mNoRoute) && mDenier < 0 && !mStop && len(ups) > 0 {
+						c.Violation("denied-request-never-forwarded", "C14/failed-redo-but-forwarded/"+sig,
+							fmt.Sprintf("%s chain %v verdicts %v: a filter made the redo (re-match onto no route / re-choose without a healthy host) fail, yet the request reached an upstream (%d attempts)", proto, shape.phases, vec, len(ups)), wit)
+					}
 					// (1) at most once per pass: only a filter that itself asked for a re-entry may run twice
 					for id, n := range calls {
 						allowed := 1
-						if id < len(vec) && (vec[id] == "m" || vec[id] == "o") {
+						if id < len(vec) && (vec[id] == "m" || vec[id] == "o" || vec[id] == "x" || vec[id] == "y") {
 							allowed = 2
 						}
 						if id < len(vec) && (vec[id] == "M" || vec[id] == "O") {
@@ -436,7 +549,7 @@ func c14Engine(c *lab.Ctx) {
 							}
 						}
 					}
-					if denier < 0 && !hasStop {
+					if denier < 0 && !hasStop && !mDead && !mNoRoute {
 						// forwarded normally: exactly one upstream attempt and one response
 						if len(ups) != 1 || ev.Kind != "response" {
 							c.Violation("allowed-request-forwarded", "C14/allowed-but-not-served/"+sig,
